@@ -126,7 +126,7 @@ async function main () {
   }
   for (const { e } of knownHit.values()) console.log(`KNOWN-FINDING: property=${driver.id} [${e.id}] ${e.text}`)
   if (process.env.VERIF_DUMP) fs.writeFileSync(process.env.VERIF_DUMP, fresh.map((v) => JSON.stringify({ rule: v.rule, sig: v.sig, detail: v.detail })).join('\n'))
-  const repDir = path.join(ROOT, 'replays', driver.id)
+  const repDir = path.join(process.env.VERIF_REPLAY_DIR || path.join(ROOT, 'replays'), driver.id)
   let printed = 0
   for (const v of fresh) {
     if (printed >= 20) break
@@ -170,8 +170,10 @@ async function main () {
     wall_s: wall,
     violations: fresh.length
   }
-  fs.mkdirSync(path.join(ROOT, 'evidence'), { recursive: true })
-  fs.writeFileSync(path.join(ROOT, 'evidence', driver.id + '.json'), JSON.stringify(evidence, null, 1))
+  // (the seeding tools point these two directories elsewhere: a run on a seeded tree says nothing about /repo)
+  const evDir = process.env.VERIF_EVIDENCE_DIR || path.join(ROOT, 'evidence')
+  fs.mkdirSync(evDir, { recursive: true })
+  fs.writeFileSync(path.join(evDir, driver.id + '.json'), JSON.stringify(evidence, null, 1))
   console.log(`${driver.id} tier=${tier} leaves=${built.leaves.length} states=${stats.states} transitions=${stats.transitions} evaluations=${evaluations} nontrivial=${nontrivial.size} outcomes=${JSON.stringify(outcomes)} violations(new)=${fresh.length} known=${knownHit.size} raw_violations=${violationCount} wall=${wall.toFixed(1)}s`)
   if (outcomes.skipped_after_hangs && !fresh.length) { console.log('MACHINERY: exploration was cut short after repeated hangs but no violation was reported'); process.exit(2) }
   process.exit(fresh.length ? 1 : 0)
